@@ -1,0 +1,32 @@
+//go:build verif
+
+package locode
+
+// Machine-checked contracts (govc, see /verif/DESIGN.md). Comment-only file.
+
+// ---- C38 (LOCODE validator): a candidate that announces a UN/LOCODE is admitted only if
+// its CountryCode attribute is exactly the two-letter country part of that LOCODE (the other
+// derived attributes are compared with the database record, which is an external input).
+//@ ghost pred announcedLocode() string
+//@ ghost pred announcedCountryCode() string
+//@ callrule c38_locode_attribute in (*Validator).Verify
+//@   property C38
+//@   callee (netmap.NodeInfo).LOCODE
+//@   pureeffect
+//@   defines result == announcedLocode()
+//@ callrule c38_country_code_attribute in (*Validator).Verify
+//@   property C38
+//@   callee (netmap.NodeInfo).CountryCode
+//@   pureeffect
+//@   defines result == announcedCountryCode()
+//@ callrule c38_locode_collaborators in (*Validator).Verify
+//@   property C38
+//@   callee locode.getRecord, (netmap.NodeInfo).*, fmt.Errorf, (*locode.Continent).String, (locode.Continent).String
+//@   pureeffect
+//@ func wrongLocodeAttrErr
+//@   property C38
+//@   assigns nothing
+//@   ensures [is_an_error] result != nil
+//@ func (*Validator).Verify
+//@   property C38
+//@   ensures [country_code_is_the_locodes_country_part] err == nil && len(announcedLocode()) > 0 ==> announcedCountryCode() == announcedLocode()[0:2]
